@@ -86,8 +86,11 @@ Inductive node :=
     (* derive a handle with an internal Session literal; the body runs on it *)
 | NWith (c : ctx) (body : list node)
     (* the caller rebinds: h.WithContext(c) / h.Session(&Session{Context: c}) *)
-| NBegin (l : slit) (f : cform) (body : list node).
+| NBegin (l : slit) (f : cform) (body : list node)
     (* Begin(): getInstance().Session(l); BeginTx(<f>); the body runs on the transaction handle *)
+| NBeginW (l : slit) (f : cform) (g : cform) (body : list node).
+    (* Begin() when the pool is a PreparedStmtDB: BeginTx(<f>) is the wrapper's method, whose own call
+       site beginner.BeginTx(<g>, opt) passes its context parameter on *)
 
 Definition call := (ckind * ctx)%type.
 
@@ -111,6 +114,10 @@ Section Run.
     | NBegin l f body =>
         let h' := session cp l ctx_unknown (get_instance cp h) in
         (KBegin, arg_ctx f h' ctx_unknown)
+        :: (fix go (ns : list node) : list call := match ns with [] => [] | x :: r => run x h' ++ go r end) body
+    | NBeginW l f g body =>
+        let h' := session cp l ctx_unknown (get_instance cp h) in
+        (KBegin, arg_ctx g h' (arg_ctx f h' ctx_unknown))
         :: (fix go (ns : list node) : list call := match ns with [] => [] | x :: r => run x h' ++ go r end) body
     end.
   Definition run_list (ns : list node) (h : handle) : list call :=
@@ -142,6 +149,7 @@ Fixpoint node_ok (n : node) : bool :=
   | NSess l body => session_keeps_ctx l && forallb node_ok body
   | NWith _ body => forallb node_ok body
   | NBegin l f body => session_keeps_ctx l && site_passes_stmt_ctx f && forallb node_ok body
+  | NBeginW l f g body => session_keeps_ctx l && site_passes_stmt_ctx f && site_passes_param g && forallb node_ok body
   end.
 
 (* the context every call of a tree must carry: the caller's, or the innermost explicit rebinding *)
@@ -151,12 +159,12 @@ Fixpoint expected (n : node) (c : ctx) : list call :=
   | NWrapped _ inner => map (fun kf => (fst kf, c)) inner
   | NSess _ body => flat_map (fun x => expected x c) body
   | NWith c' body => flat_map (fun x => expected x c') body
-  | NBegin _ _ body => (KBegin, c) :: flat_map (fun x => expected x c) body
+  | NBegin _ _ body | NBeginW _ _ _ body => (KBegin, c) :: flat_map (fun x => expected x c) body
   end.
 
 Fixpoint has_rebind (n : node) : bool :=
   match n with
   | NCall _ _ | NWrapped _ _ => false
-  | NSess _ body | NBegin _ _ body => existsb has_rebind body
+  | NSess _ body | NBegin _ _ body | NBeginW _ _ _ body => existsb has_rebind body
   | NWith _ _ => true
   end.
